@@ -24,13 +24,24 @@ theorem rejected_never_block {net : Nat → Info} {c : Nat} {U : List Nat} (hc :
     (∀ x ∈ s'.log, (net x).valid = true ∧ (net x).foreign = false) :=
   C10_rejected_never_block hc hU acts ha hnc ctx hs hhs n
 
-/-- `Sync` level (after its `fix:` commit, finding F18): a head that the access controller refuses is
-never handed to the replicator — so no fetch, which might never end because nobody serves the
+/-- `Sync` level (after its `fix:` commits, findings F18, F21, F22): only a complete head written for
+this log, signed by the identity it names and admitted by the access controller is handed to the
+replicator — so no fetch, which might never end because nobody serves the
 block, is ever started on behalf of a non-writer. (The theorem above assumes every fetch ends.) -/
 theorem refused_heads_are_never_fetched (acl : Acl) (id : Nat) (hs : List RawHead) (es : List Entry)
     (h : syncHeads acl id hs [] = .load es) :
-    ∀ e ∈ es, ∃ r ∈ hs, r.complete = true ∧ r.entry.logId = id ∧ acl.canAppend r.entry = true ∧ r.entry = e :=
+    ∀ e ∈ es, ∃ r ∈ hs, r.complete = true ∧ r.entry.logId = id ∧ r.entry.sigOk = true ∧
+      acl.canAppend r.entry = true ∧ r.entry = e :=
   syncHeads_loads_only_own_admitted acl id hs es h
+
+/-- Refutation witness for the tree before the repair of finding F22: a head that names a writer but
+is not signed by it was handed to the replicator; on the real store one such head pointing to a block
+nobody serves blocked every later replication (corpus/C10/f22) -/
+theorem badly_signed_head_was_fetched_before_the_fix (e : Entry) (h : e.logId = 1) (hk : e.key = e.ident)
+    (hi : e.identOk = true) (hh : e.hashOk = true) (hs : e.sigOk = false) :
+    syncHeads0 { wildcard := true } [{ entry := e }] [] = .load [e] ∧
+    syncHeads { wildcard := true } 1 [{ entry := e }] [] = .load [] :=
+  badly_signed_head_was_loaded e h hk hi hh hs
 
 /-- Refutation witness for the tree before that repair: the refused head was on the list handed to
 the replicator; on the real store one such head whose block nobody serves blocked every later
